@@ -620,7 +620,7 @@ func (e *Env) index(x *ast.IndexExpr, t types.Type) Value {
 
 func (e *Env) readElem(b Value, i *Term, t types.Type) Value {
 	if b.ElemU {
-		v := Select(Select(e.memU(), b.Ref), Add(b.Off, i))
+		v := Select(App("shiftU", SArrU, Select(e.memU(), b.Ref), b.Off), i)
 		k, _ := kindOf(t)
 		if k == VU {
 			return Value{K: VU, T: v, Typ: t}
